@@ -659,11 +659,16 @@ func newScenario(c *kit.Check, idx int) *scenario {
 	revS := sc.rev.String()
 	mk := func(key, entry, path, home string, big bool) {
 		tops := []string{revS, "common"}
-		switch r.Intn(10) {
-		case 0:
-			tops = []string{"common"}
-		case 1:
-			tops = []string{revS}
+		// the system data and the first user always have both directories (so
+		// that the clean restores of every run can succeed); later users may
+		// have had only one of them when the snapshot was taken
+		if key != "sys" && key != sc.users[0] {
+			switch r.Intn(5) {
+			case 0:
+				tops = []string{"common"}
+			case 1:
+				tops = []string{revS}
+			}
 		}
 		p := &dataParent{Key: key, Entry: entry, Path: path, Home: home, Tops: tops}
 		p.Rel, _ = filepath.Rel(sc.top, path)
@@ -753,8 +758,8 @@ func TestVerifC32(t *testing.T) {
 		}
 	}
 
-	nScen := kit.Scale(1, 4)
-	nImport := kit.Scale(102, 204) // per scenario (34 stream classes, round-robin)
+	nScen := kit.Scale(1, 3)
+	nImport := kit.Scale(102, 170) // per scenario (34 stream classes, round-robin)
 	only := kit.OnlyCase()
 	for s := 0; s < nScen; s++ {
 		if only >= 0 && only/caseStride != s {
